@@ -80,6 +80,12 @@ def check(case):
     B = calc.Lij(*vs.args(d0), large_om2=np.inf)
     for nm, T in zip(names, A):
         require(np.all(np.isfinite(T)), lambda: "omega2-scaling: forced large-omega2 algorithm returns non-finite %s at r=%.3g" % (nm, r0))
+    # the threshold is a keyword: 0 and a tiny positive value (the form used in examples/LargeOmega2) both mean "always the
+    # large-rate algorithm" and must therefore give the same numbers
+    A1 = calc.Lij(*vs.args(d0), large_om2=1e-33)
+    e01 = diff(A, A1)
+    require(e01 <= 1e-12, lambda: "omega2-scaling: large_om2=0 and large_om2=1e-33 (both force the large-rate algorithm) differ by %.3e at r=%.3g; L1vv %s vs %s"
+            % (e01, r0, np.asarray(A[3]).tolist(), np.asarray(A1[3]).tolist()))
     e = diff(A, B)
     tol = 1e-9 + 1e-14 * r0
     require(e <= tol, lambda: "omega2-scaling: large-omega2 and standard algorithms disagree at r=%.3g: relative difference %.3e > %.1e; e.g. Lss %s vs %s"
